@@ -1,0 +1,13 @@
+//go:build verif
+
+// Contracts of this package for the deductive verifier in /verif (vcgo).
+// Comment-only; compiled only with -tags verif.
+
+package gossip
+
+// Status routes (C09): registered only on the group given, so behind its chain.
+//@ contract (*Status).Register
+//@   serves C09
+//@   opt implements github.com/andydunstall/piko/server/status.(Handler).Register
+//@   requires[group] group != nil
+//@   ensures[behind-group] grpAuth[group] && !old(gOpenRoute) ==> !gOpenRoute
